@@ -57,9 +57,9 @@ func toLogRecord(l Log) reftable.LogRecord {
 // writeFn builds the write closure of one transaction.
 func (w *World) writeFn(t *simrt.Task, cr *CallRec, tx *TxnSpec, base func() uint64) func(wr *reftable.Writer) error {
 	return func(wr *reftable.Writer) error {
-		b := base()
+		b := base() + tx.Jump
 		bad := ""
-		if tx.Bad == "stale-index" && b > 1 {
+		if tx.Bad == "stale-index" && b > 1 && tx.Jump == 0 {
 			b--
 			bad = tx.Bad
 		}
@@ -310,7 +310,7 @@ func (w *World) invoke(t *simrt.Task, hs *HandleState, op *OpSpec, cr *CallRec) 
 			nBefore := len(cr.Written)
 			err := tr.Add(w.writeFn(t, cr, &op.Txns[i], func() uint64 { return base }))
 			if n := len(cr.Written); n > nBefore && !cr.Written[n-1].Empty && err == nil {
-				next = base + uint64(span)
+				next = base + op.Txns[i].Jump + uint64(span)
 			}
 			if err != nil {
 				// a refused table poisons nothing: the Addition stays open,
@@ -358,7 +358,7 @@ func (w *World) invoke(t *simrt.Task, hs *HandleState, op *OpSpec, cr *CallRec) 
 				return err
 			}
 			if n := len(cr.Written); n > 0 && !cr.Written[n-1].Empty {
-				next = base + uint64(span)
+				next = base + op.Txns[i].Jump + uint64(span)
 			}
 		}
 		return tr.Commit()
